@@ -675,6 +675,19 @@ def translate_module(path, pymod, wanted=None, oracles=(), xmods=None, external=
             F=Fn(mod,c,fn); txt=F.emit(); trs[(c,m)]=(F,txt)
         except Unsupported as e: failed[(c,m)]=str(e); stubs[(c,m)]=Fn(mod,c,fn).stub(str(e))
         except Exception as e: failed[(c,m)]="translator error: %s"%e; stubs[(c,m)]=Fn(mod,c,fn).stub("translator error")
+    # functions the translated ones call are part of the unit even when not asked for (a helper extracted by a later edit of the source)
+    allitems={(c,m):fn for c,m,fn in items}
+    grew=True
+    while grew:
+        grew=False
+        for k in list(trs):
+            for d in trs[k][0].calls:
+                if d in trs or d in failed or d not in allitems: continue
+                grew=True
+                try:
+                    F=Fn(mod,d[0],allitems[d]); txt=F.emit(); trs[d]=(F,txt)
+                except Unsupported as e: failed[d]=str(e); stubs[d]=Fn(mod,d[0],allitems[d]).stub(str(e))
+                except Exception as e: failed[d]="translator error: %s"%e; stubs[d]=Fn(mod,d[0],allitems[d]).stub("translator error")
     order=[]; seen=set()
     def visit(k):
         if k in seen or k not in trs: return
